@@ -16,6 +16,13 @@ B  TLC (NdnPacketsCertGen) enumerates requests - subject key type x issuing sign
    must return the same fields.
 C  random requests (key names of 3..8 components of any type, any instant, duration, zone, clock, synthetic
    shrinking signers of any length) recorded as {q, layout, validity text, covered range}, judged by TLC.
+Parse/edit histories (NdnPacketsCertParse, NdnPacketsCertParseTrace): "parsing returns those same fields" is decided over
+   histories Parse(certificate, buffer kind, parse_certificate | parse_data) / Edit(result held, field, operation): A TLC
+   checks ParseReturnsIssued and Independent and refutes the "one remembered result per wire" deviation; B the cover paths of
+   the state graph are replayed on real parse results and every holder's view is compared with TLC's state after every
+   step; C random longer histories (more certificates, results, every buffer kind) are judged by TLC.
+The time zone of the issuing process (TZ + tzset, HOSTS) is a dimension of every issuing call in B (NdnPacketsCertCfg!Hosts)
+   and C (random requests, signer-reuse histories, certificates of parse histories).
 """
 import json, os, re, time
 from datetime import datetime, timedelta, timezone
@@ -34,6 +41,10 @@ SIGTYPE = {'digest': 0, 'rsa': 1, 'ecdsa': 3, 'hmac': 4, 'ed25519': 5, 'syn': pk
 SUBJ = ['ec256', 'ec384', 'rsa', 'ed25519']
 FN_NAME = {'self_sign': 'self_sign', 'sign_req': 'sign_req', 'derive': 'derive_cert', 'new_cert': 'new_cert'}
 T0 = datetime(1970, 1, 1)
+# the time zone of the issuing PROCESS (TZ + tzset): an environment dimension of every issuing call - random requests,
+# signer-reuse histories, certificates issued for parse histories. West / east of UTC, with and without DST,
+# offsets that are not whole hours (+05:30, +12:45/+13:45).
+HOSTS = ['UTC', 'UTC', 'America/Los_Angeles', 'America/New_York', 'Asia/Kolkata', 'Europe/Berlin', 'Pacific/Auckland', 'Pacific/Chatham']
 
 
 # ---------------------------------------------------------------- executor
@@ -190,6 +201,11 @@ def issue(q, rng, pool, target=True, live=None, keyname=None):
         b.rec = pk.make_signer(q['sg'], rng, pool, b.kl, target)
     b.exc = b.wire = b.cert_name = None
     b.issuer_bytes = {'self_sign': b'\x08\x04self', 'sign_req': b'\x08\x0ccert-request'}.get(q['fn'])
+    if q['fn'] in ('new_cert', 'derive'):
+        try:
+            t_start, t_end = start_datetime(q), (end_datetime(q) if q['fn'] == 'new_cert' else None)
+        except OverflowError as e:
+            raise MachineryError('request with a start/end that is not a datetime in its zone: %r' % e)
     with Clock(q['clock'], q.get('host', 'UTC')) as ck:
         b.ms = ck.ms
         try:
@@ -199,10 +215,10 @@ def issue(q, rng, pool, target=True, live=None, keyname=None):
                 b.cert_name, w = sv2.sign_req(b.keyname, b.pub, b.rec)
             elif q['fn'] == 'new_cert':
                 b.issuer_arg, b.issuer_bytes = issuer_arg(dict(q, idform='comp'), rng)
-                b.cert_name, w = sv2.new_cert(b.keyname, b.issuer_arg, b.pub, b.rec, start_datetime(q), end_datetime(q))
+                b.cert_name, w = sv2.new_cert(b.keyname, b.issuer_arg, b.pub, b.rec, t_start, t_end)
             else:
                 b.issuer_arg, b.issuer_bytes = issuer_arg(q, rng)
-                b.cert_name, w = sv2.derive_cert(b.keyname, b.issuer_arg, b.pub, b.rec, start_datetime(q), q['dur'])
+                b.cert_name, w = sv2.derive_cert(b.keyname, b.issuer_arg, b.pub, b.rec, t_start, q['dur'])
             b.raw = w                 # the caller's buffer, kept alive (re-read later: must not change)
             b.wire = bytes(w)
         except MachineryError:
@@ -432,9 +448,15 @@ def rand_req(rng, pool):
                      's': rng.randrange(86400)}
     if fn in ('derive', 'new_cert') and rng.random() < 0.04:
         start = {'d': days(rng.choice([1, 99, 999, 1000, 1582, 1900, 1969]), rng.choice([1, 12]), rng.choice([1, 28])), 's': rng.randrange(86400)}
-    host = rng.choice(['UTC', 'UTC', 'America/Los_Angeles', 'Asia/Kolkata', 'Europe/Berlin', 'Pacific/Auckland'])
-    return {'fn': fn, 'subj': subj, 'keyname': keyname, 'lit': lit, 'publen': len(pool.pub_der(subj)), 'issuer': issuer, 'idform': idform,
-            'sg': sg, 'clock': clock, 'start': start, 'dur': dur, 'tz': tz, 'tz2': tz2, 'zone': zone, 'host': host}
+    host = rng.choice(HOSTS)
+    q = {'fn': fn, 'subj': subj, 'keyname': keyname, 'lit': lit, 'publen': len(pool.pub_der(subj)), 'issuer': issuer, 'idform': idform,
+         'sg': sg, 'clock': clock, 'start': start, 'dur': dur, 'tz': tz, 'tz2': tz2, 'zone': zone, 'host': host}
+    try:        # the caller's datetimes must exist (0001-01-01T07:00 UTC has no wall-clock reading at UTC-8)
+        start_datetime(q), end_datetime(q)
+    except OverflowError:
+        q['tz'] = q['tz2'] = NAIVE
+        q['zone'] = ''
+    return q
 
 
 def record(ctx, q, pool, exp=None):
@@ -456,10 +478,11 @@ def record(ctx, q, pool, exp=None):
             ivs = []
             for p in sp.signature_covered_part:
                 o = pk.mv_offset(ba, p)
-                if o is None:
-                    raise MachineryError('could not locate the parser\'s view inside the wire')
+                if o is None:       # the covered part is not a view of the buffer that was parsed: no range of this wire
+                    ivs = None
+                    break
                 ivs.append((o, o + len(p)))
-            rec['signed'] = pk.merge_ivs(ivs)
+            rec['signed'] = pk.merge_ivs(ivs) if ivs is not None else []
         except MachineryError:
             raise
         except Exception:  # noqa: reported by field_checks already
@@ -523,7 +546,7 @@ class LiveSigner:
                 'nonce': 0, 'time': 0, 'seq': 0}
 
 
-def run_history(ctx, kind, init, steps, shapes, pool, stage):
+def run_history(ctx, kind, init, steps, shapes, pool, stage, host=None):
     """Drive ONE real signer along steps = [('SetLocator', l) | ('SignData',) | ('Issue', fn)].
     After every issuance the whole certificate is checked against the locator configured at that moment.
     Returns (history record for NdnPacketsCertHistTrace, certificate records for NdnPacketsCertTrace)."""
@@ -538,6 +561,7 @@ def run_history(ctx, kind, init, steps, shapes, pool, stage):
         keyname = names[1] = [names[1][0], b'\x08\x03KEY', names[1][2]]
     live = LiveSigner(kind, names[init], pool, tlc.BUILD)
     cur = init
+    host = ctx.rng.choice(HOSTS) if host is None else host
 
     def configured():
         """identifier of the locator the signer object is configured with right now (0 = none of ours)"""
@@ -548,7 +572,7 @@ def run_history(ctx, kind, init, steps, shapes, pool, stage):
         return next((i for i, nm in names.items() if nm == now), 0)
     ev, certs, held = [], [], []
     hist_rep = {'kind': 'history', 'signer': kind, 'init': init, 'steps': [list(x) for x in steps],
-                'shapes': {str(k): v for k, v in shapes.items()}}
+                'shapes': {str(k): v for k, v in shapes.items()}, 'host': host}
     for stp in steps:
         if stp[0] == 'SetLocator':
             cur = stp[1]
@@ -560,7 +584,7 @@ def run_history(ctx, kind, init, steps, shapes, pool, stage):
         else:
             fn = stp[1]
             q = {'fn': fn, 'subj': 'ec256', 'keyname': keyshape, 'lit': ['', 'KEY', ''],
-                 'publen': len(pool.pub_der('ec256')), 'issuer': {'t': 8, 'l': 3}, 'idform': 'plain', 'tz2': NAIVE, 'zone': '', 'host': 'UTC', 'sg': live.sg(shapes[cur]),
+                 'publen': len(pool.pub_der('ec256')), 'issuer': {'t': 8, 'l': 3}, 'idform': 'plain', 'tz2': NAIVE, 'zone': '', 'host': host, 'sg': live.sg(shapes[cur]),
                  'clock': {'d': 20000 + len(ev), 's': 3600, 'ms': 5}, 'start': {'d': 19000, 's': 0}, 'dur': 86400, 'tz': NAIVE}
             before = configured()
             b = issue(q, ctx.rng, pool, target=False, live=(live.obj, names[cur]), keyname=keyname)
@@ -870,9 +894,7 @@ def apply_edit(via, obj, f, op, k):
 
 def parse_req(rng, pool):
     """A request for a certificate to be parsed: any issuing function, key type, signer and signature length."""
-    q = rand_req(rng, pool)
-    q['host'] = 'UTC'
-    return q
+    return rand_req(rng, pool)
 
 
 def run_parse_history(ctx, qs, steps, pool, stage):
@@ -1101,7 +1123,7 @@ def judge_parse(ctx, hists, stage):
 
 def parse_stage_c(ctx, pool):
     hists = []
-    for _ in range(ctx.pick(120, 4000)):
+    for _ in range(ctx.pick(120, 2500)):
         ncert = ctx.rng.randint(1, 3)
         steps = rand_parse_steps(ctx.rng, ncert, ctx.rng.randint(3, ctx.pick(12, 30)))
         h = run_parse_history(ctx, [parse_req(ctx.rng, pool) for _ in range(ncert)], steps, pool, 'C')
@@ -1276,7 +1298,7 @@ def replay(ctx, path):
         shapes = {int(k): v for k, v in obj['shapes'].items()}
         steps = [tuple(x) for x in obj['steps']]
         print('one %s signer, initial locator #%d, steps %s' % (obj['signer'], obj['init'], steps))
-        h, certs = run_history(ctx, obj['signer'], obj['init'], steps, shapes, pool, 'replay')
+        h, certs = run_history(ctx, obj['signer'], obj['init'], steps, shapes, pool, 'replay', host=obj.get('host', 'UTC'))
         print('events (kl = locator found in the certificate):', h['ev'])
         rej = judge_histories(ctx, [h], certs, 'replay')
         for v in ctx.violations:
